@@ -515,8 +515,9 @@ func init() {
 		if ok {
 			c11Resume(rep, explore.Deadline(60*time.Second, 10*time.Minute))
 		}
+		c11ResumeWakeup(rep)
 		rep.Rule = "snapshot enumeration with the deletion or pause flag raised: (1) the ownership grid of C10 (orphan pods and revisions awaiting adoption, foreign objects) with the set deleting in cache and API, deleting in the API only (stale cache), paused, and paused while deleting; (2) the population grids of C03 with the flag raised: " + desc +
-			"Oracle: deleting (cached) => no write on pods or claims, no adoption/release patch on anything, no write on a revision the set does not control; API copy deleting with a stale cache => no adoption of pods or revisions; paused => no write at all. (3) resume clause on the search graph of C02's seeds with pause on / pause off as deviations (D=2): for every state s, every state t reached from pause(s) by progress transitions and u = unpause(t), the final states reachable from u are among those reachable from s, and exist."
+			"Oracle: deleting (cached) => no write on pods or claims, no adoption/release patch on anything, no write on a revision the set does not control; API copy deleting with a stale cache => no adoption of pods or revisions; paused => no write at all. (3) resume clause on the search graph of C02's seeds with pause on / pause off as deviations (D=2): for every state s, every state t reached from pause(s) by progress transitions and u = unpause(t), the final states reachable from u are among those reachable from s, and exist; (4) the resume is noticed: the set update event that only removes (or only adds) the pause annotation, delivered to the real event handler, puts the set on the work queue, and the next worker step reconciles it."
 		rep.AddStates(n, n)
 		rep.Validated = n
 		return rep.Finish()
